@@ -505,7 +505,7 @@ def shrink_case(st: Stream, d, v, prop, max_steps=25):
         vs = evaluate(st, cands, f"{prop}_{st.name}_shrink")
         steps += 1
         for c, cv in zip(cands, vs):
-            if cv not in GOOD and not cv.startswith(("CoqError", "HarnessError")):
+            if cv == v:      # keep the SAME kind of failure while shrinking
                 d, v = c, cv
                 improved = True
                 break
